@@ -43,6 +43,9 @@ func child() {
 			// /big/<n>: n octets, each a function of its offset, written in pieces larger than the HTTP/2 server's write buffer
 			var n int
 			if _, err := fmt.Sscanf(r.URL.Path, "/big/%d", &n); err != nil {
+				w.Header().Set("X-Vf-Backend", "1") // everything else: the recording backend's ordinary answer (a small body)
+				w.WriteHeader(200)
+				io.WriteString(w, "backend-ok")
 				return
 			}
 			buf := make([]byte, 8192)
@@ -708,6 +711,17 @@ func main() {
 					omu.Lock()
 					outcomes[o]++
 					omu.Unlock()
+					if strings.HasPrefix(o, "dial: ") {
+						// nobody listens any more: the process is going down (its exit may not have been reaped yet); racing on through the
+						// work list would move the window of suspects past the connection that did it
+						atomic.AddInt64(&next, -1)
+						for k := 0; k < 100 && ch.alive(); k++ {
+							time.Sleep(10 * time.Millisecond)
+						}
+						if !ch.alive() {
+							return
+						}
+					}
 				}
 			}()
 		}
